@@ -178,3 +178,49 @@ def run_families(prop, tier, progs, rule, assumptions, t0, max_steps=20000, extr
     if extra_cov:
         cov.update(extra_cov)
     return verd, cov, allv, allo, stats
+
+
+def selftest(prop, progs, max_steps=30000):
+    """binding demonstration: corrupt one field / drop / duplicate one event of recorded traces
+    of validated programs; every corruption must be rejected by LuaSemTrace"""
+    import copy, random
+    vlib.build_harness()
+    stats = {"states": 0, "transitions": 0}
+    outs = run_real(progs, "st")
+    verdicts = validate(progs, outs, "st", stats, max_steps=max_steps)
+    good = [p for p in progs if verdicts[p["id"]]["v"] == "ok" and len(outs[p["id"]]["emits"]) >= 2][:60]
+    rng = random.Random(7)
+    mutants, kinds = [], {}
+    for p in good:
+        o = outs[p["id"]]
+        for kind in ("value", "drop", "dup", "outcome"):
+            m = copy.deepcopy(o)
+            ev = m["emits"]
+            if kind == "value":
+                cands = [(i, j) for i, e in enumerate(ev) for j, t in enumerate(e) if t[0] == "n"]
+                if not cands:
+                    continue
+                i, j = rng.choice(cands)
+                ev[i][j] = ["n", ev[i][j][1] + 1]
+            elif kind == "drop":
+                del ev[rng.randrange(len(ev))]
+            elif kind == "dup":
+                i = rng.randrange(len(ev))
+                ev.insert(i, copy.deepcopy(ev[i]))
+            else:
+                if m["outcome"][0] == "ok":
+                    m["outcome"] = ["ok", m["outcome"][1] + [["n", 12345]]]
+                else:
+                    m["outcome"] = ["ok", []]
+            q = dict(p, id=len(mutants) + 1)
+            mutants.append((q, m))
+            kinds[q["id"]] = kind
+    v2 = validate([q for q, m in mutants], {q["id"]: m for q, m in mutants}, "stm", stats, max_steps=max_steps)
+    rejected = sum(1 for q, m in mutants if v2[q["id"]]["v"] == "bad")
+    accepted = [(kinds[q["id"]], q["src"][:200]) for q, m in mutants if v2[q["id"]]["v"] != "bad"]
+    vlib.log("[%s selftest] %d validated programs, %d corrupted traces (value changed / event dropped / event duplicated / outcome changed): %d rejected by LuaSemTrace" % (
+        prop, len(good), len(mutants), rejected))
+    for k, src in accepted[:3]:
+        vlib.log("  NOT rejected (%s): %s" % (k, src))
+    # a duplicated event equal to its neighbour's copy can be indistinguishable only if the program emitted it twice: none expected
+    return 0 if rejected == len(mutants) and mutants else 2
